@@ -192,13 +192,13 @@ Proof.
   unfold read_main. cbv zeta. intros H.
   destruct (Nat.ltb (length body) 12); [discriminate H|].
   set (slice := le_decode (firstn 8 body)) in *.
-  destruct ((slice =? 0) || negb (slice mod 4 =? 0) || (MAXINT <? slice)) eqn:E; [discriminate H|].
+  destruct ((slice =? 0) || negb (slice mod 4 =? 0) || (MAXINT <? slice) || (MAXSLICE <? slice)) eqn:E; [discriminate H|].
   destruct (le_decode (firstn 4 (skipn 8 body)) =? 0); [discriminate H|].
   destruct (negb (Nat.eqb (length (skipn 12 body) mod 16) 0)); [discriminate H|].
   destruct (N.of_nat (length (chunk_bytes 16 (skipn 12 body))) <? le_decode (firstn 4 (skipn 8 body))); [discriminate H|].
   match type of H with (if ?c then _ else _) = _ => destruct c end; [discriminate H|].
   injection H as <-. cbn [mp_slice].
-  apply orb_false_iff in E. destruct E as [E _]. apply orb_false_iff in E. destruct E as [E0 E4].
+  apply orb_false_iff in E. destruct E as [E _]. apply orb_false_iff in E. destruct E as [E _]. apply orb_false_iff in E. destruct E as [E0 E4].
   apply N.eqb_neq in E0. apply negb_false_iff in E4. apply N.eqb_eq in E4.
   pose proof (N.div_mod' slice 4) as DM. lia.
 Qed.
